@@ -1,6 +1,7 @@
 package main
 
 import (
+	"context"
 	"fmt"
 	"os"
 	"runtime/pprof"
@@ -10,6 +11,7 @@ import (
 
 	"seata.apache.org/seata-go/pkg/protocol/branch"
 	"seata.apache.org/seata-go/pkg/protocol/message"
+	"seata.apache.org/seata-go/pkg/rm"
 
 	"verif/harness/tc"
 )
@@ -207,8 +209,8 @@ func (c *coordinator) finish(xid string, bs []reg, commit bool) {
 		}
 		for i := len(bs) - 1; i >= 0; i-- {
 			c.deliver(xid, bs[i], false)
-			if bs[i].bt == branch.BranchTypeAT && bs[i].bid%4 == 0 && os.Getenv("VERIF_STRESS_DUP") != "" {
-				// (opt-in, VERIF_STRESS_DUP=1, not part of ./check - see DESIGN 9, "an unexplained observation")
+			if bs[i].bt == branch.BranchTypeAT && bs[i].bid%4 == 0 && os.Getenv("VERIF_STRESS_NODUP") == "" {
+				// (VERIF_STRESS_NODUP=1 switches it off: debugging aid)
 				// the coordinator did not see the answer and asks again, twice: the first repetition finds the undo
 				// log gone and leaves the marker, the second finds the marker - both are answered, nothing is kept
 				c.deliver(xid, bs[i], false)
@@ -287,6 +289,11 @@ func (c *coordinator) deliverN(xid string, b reg, commit bool, tries int) {
 	if tries > 5 && os.Getenv("VERIF_STRESS_DUMP") != "" {
 		fmt.Fprintf(os.Stderr, "P2-EXHAUSTED xid=%s bid=%d bt=%v rid=%s commit=%v\n", xid, b.bid, b.bt, b.rid, commit)
 		_ = pprof.Lookup("goroutine").WriteTo(os.Stderr, 1) // debugging aid: where is the application's statement
+		// ... and what the resource manager itself says when asked once more
+		if mgr := rm.GetRmCacheInstance().GetResourceManager(b.bt); mgr != nil {
+			st, err := mgr.BranchRollback(context.Background(), rm.BranchResource{BranchType: b.bt, Xid: xid, BranchId: b.bid, ResourceId: b.rid, ApplicationData: b.data})
+			fmt.Fprintf(os.Stderr, "P2-DIRECT status=%v err=%v\n", st, err)
+		}
 	}
 	c.mu.Lock()
 	c.p2failed++
